@@ -64,6 +64,15 @@ ASSUME Emit => \A c \in Scenarios : PrintT(<<"ENV", ToJson(c)>>)
 
 Ms(os) == [i \in 1..Len(os) |-> os[i].m]
 
+\* the accessor tables, once
+ASSUME Emit => PrintT(<<"ACC", ToJson([
+    pool |-> [sec \in {"s", "c/s", "c/s/x"} |-> [src \in {"lib+", "lib", "other"} |-> PoolPath(sec, src)]],
+    pkg  |-> [srcf \in {"absent", "plain", "ver"} |-> PkgSource(srcf)]])>>)
+\* laws of the tables
+ASSUME /\ \A src \in {"lib+", "lib", "other"} : PoolPath("s", src).comp = "main" /\ PoolPath("c/s", src).comp = "comp"
+       /\ \A sec \in {"s", "c/s"} : PoolPath(sec, "lib+").pre = 4 /\ PoolPath(sec, "other").pre = 1 /\ ~PoolPath(sec, "lib+").any
+       /\ PkgSource("absent") = [name |-> "Package", ver |-> "Version"] /\ PkgSource("ver").ver = "SourceVersion"
+
 \* only object 1 ever changes (MapsOK): the EDGE line carries its mapping; "=" = as the statement
 SameAs(k, x) == IF k = x THEN "=" ELSE k
 Edge(c, o) == Emit => LET k == OCall(env, objs, BuiltFlags, c) IN
